@@ -1,7 +1,11 @@
 (* SaveState.v -- what a save does to the Document it is called on (src/writer.rs), and therefore
    what a FAILED save leaves behind (property C19, resave clause).
 
-   save_internal takes `&mut self`.  It mutates the document at exactly one point:
+   Document::save_internal (not IncrementalDocument's) begins, before anything is written, with
+     self.max_id = self.objects.keys().next_back().map_or(self.max_id, |id| self.max_id.max(id.0));
+   (/repo 19ab1a6): max_id is raised to the largest object number [raise_max_id].  This happens in EVERY
+   save, also one that fails at the first byte, and is idempotent.
+   After that save_internal mutates the document at exactly one point:
      * cross-reference TABLE : `write_trailer` starts with `self.trailer.set("Size", max_id + 1)`; it is
        reached after the header, the binary mark, every object and the xref table have been written;
      * cross-reference STREAM: `write_cross_reference_stream` starts with `self.max_id += 1` and then
@@ -66,16 +70,25 @@ Definition mutate_stream (ids : list N) (st : sstate) : sstate :=
   let t := dict_set t K_Length (OInt (Z.of_N (7 * entries_of secs))) in (* 1 + 4 + 2 bytes per entry *)
   {| s_max_id := m; s_trailer := t |}.
 
+(* [top] = Some (largest object number in self.objects) for Document::save_internal; None for
+   IncrementalDocument::save_internal, which has no such statement (and when objects is empty) *)
+Definition raise_max_id (top : option N) (st : sstate) : sstate :=
+  match top with
+  | None => st
+  | Some t => {| s_max_id := N.max (s_max_id st) t; s_trailer := s_trailer st |}
+  end.
+
 Definition mutate (mode : xmode) (ids : list N) (st : sstate) : sstate :=
   match mode with XTable => mutate_table st | XStream => mutate_stream ids st end.
 
-(* one save: the calls before the mutation point, the mutation, the calls after it *)
+(* one save: the raise, the calls before the mutation point, the mutation, the calls after it *)
 Definition save_with (wa : script -> bytes -> wres * bytes * script)
-           (mode : xmode) (ids : list N) (pre post : list bytes) (st : sstate) (s : script)
+           (mode : xmode) (ids : list N) (top : option N) (pre post : list bytes) (st : sstate) (s : script)
   : wres * bytes * sstate :=
+  let st0 := raise_max_id top st in
   let '(r1, d1, c1) := run_cw wa pre {| cw_inner := s; cw_count := 0 |} in
   match r1 with
-  | WErr e => (WErr e, d1, st)
+  | WErr e => (WErr e, d1, st0)
   | WOk =>
-    let '(r2, d2, _) := run_cw wa post c1 in (r2, d1 ++ d2, mutate mode ids st)
+    let '(r2, d2, _) := run_cw wa post c1 in (r2, d1 ++ d2, mutate mode ids st0)
   end.
